@@ -710,10 +710,12 @@ where
                 let span = Span::current();
                 #[cfg(feature = "__verif")]
                 let gate_id = (policy.computation_id, policy.party);
+                #[cfg(feature = "__verif")]
+                crate::verif::compile_gate(gate_id.0, gate_id.1, false);
                 thread::spawn(move || {
                     let _g = span.enter();
                     #[cfg(feature = "__verif")]
-                    crate::verif::compile_gate(gate_id.0, gate_id.1);
+                    crate::verif::compile_gate(gate_id.0, gate_id.1, true);
                     debug!("compiling garble program");
                     let compiled = compile_with_options(
                         &program,
